@@ -468,6 +468,9 @@ func (s *Session) locContent(st *State, l *Loc) Val {
 			p.Nil = "false"
 			v = p
 		}
+		if r, ok := v.(Rec); ok && l.Glob != nil {
+			v = s.patchGlobalInit(l.Glob, r)
+		}
 		if ev, ok := v.(Err); ok && l.Glob != nil && globalErrInitialised(l.Glob) {
 			// package-level error variable initialised with errors.New / fmt.Errorf / Register: non-nil,
 			// and its identity is the sentinel code of the variable
@@ -658,4 +661,45 @@ func globalErrInitialised(g *ssa.Global) bool {
 		}
 	}
 	return false
+}
+
+// patchGlobalInit: fields of a package-level struct variable that the package initialiser sets to
+// constants (composite literal) have those values; a scan of all loaded repo functions for other
+// stores to package-level variables is part of the C10/C19 frame checks.
+func (s *Session) patchGlobalInit(g *ssa.Global, r Rec) Val {
+	if g.Pkg == nil {
+		return r
+	}
+	init := g.Pkg.Func("init")
+	if init == nil {
+		return r
+	}
+	nr := Rec{F: append([]Val(nil), r.F...)}
+	st, ok := g.Type().(*types.Pointer).Elem().Underlying().(*types.Struct)
+	if !ok {
+		return r
+	}
+	// literal initialisers are compiled either as stores of constants into the fields or, when all
+	// fields are constant, as static data (then SSA shows no store: fields keep their zero value)
+	for i := 0; i < st.NumFields(); i++ {
+		nr.F[i] = s.zeroVal(st.Field(i).Type())
+	}
+	for _, b := range init.Blocks {
+		for _, ins := range b.Instrs {
+			sto, ok := ins.(*ssa.Store)
+			if !ok {
+				continue
+			}
+			fa, ok := sto.Addr.(*ssa.FieldAddr)
+			if !ok || fa.X != ssa.Value(g) {
+				continue
+			}
+			if c, ok := sto.Val.(*ssa.Const); ok {
+				nr.F[fa.Field] = s.constVal(c)
+			} else {
+				nr.F[fa.Field] = r.F[fa.Field] // initialised from a non-constant expression: unknown
+			}
+		}
+	}
+	return nr
 }
